@@ -338,3 +338,28 @@ package core
 //@   ensures @disabled st0 == "disabled" ==> ghost(runs) == old(ghost(runs)) && ghost(completes) == old(ghost(completes))
 //@   ensures @terminal st0 == "complete" || st0 == "failed" ==> ghost(runs) == old(ghost(runs)) && ghost(completes) == old(ghost(completes))
 //@   ensures @running st0 == "split_running" || st0 == "split_queued" || st0 == "chunks_running" || st0 == "join_running" || st0 == "join_queued" ==> ghost(runs) == old(ghost(runs)) && ghost(completes) == old(ghost(completes))
+
+// Jobs are started only by stepping a node whose recorded state is running, and
+// the recorded state is always a fresh getState() result.
+//@ func core.Node.step property C02 C03 C06
+//@   ensures @fresh self.state == old(self.state) || self.state == fn(core.Node.getState, self)
+//@   ensures @norun old(self.state) != "running" ==> ghost(runs) == old(ghost(runs))
+//@   loop 1 invariant 0 <= iter && self.state == "running"
+
+//@ func core.Pipestance.allNodes property C06
+//@   trusted
+//@   pure
+//@   opt deterministic on
+//@ func core.Node.getFrontierNodes property C06
+//@   trusted
+//@   pure
+//@   opt deterministic on
+
+// Success is reported only if every node is complete or disabled; a failed frontier node fails the pipestance.
+//@ func core.Pipestance.GetState property C06
+//@   ensures @complete result == "complete" ==> forall j :: 0 <= j && j < len(fn(core.Pipestance.allNodes, self)) ==> (fn(core.Pipestance.allNodes, self)[j].state == "complete" || fn(core.Pipestance.allNodes, self)[j].state == "disabled")
+//@   ensures @failed (exists j :: 0 <= j && j < len(fn(core.Node.getFrontierNodes, self.node)) && fn(core.Node.getFrontierNodes, self.node)[j].state == "failed") ==> result == "failed"
+//@   loop 1 invariant 0 <= iter && forall j :: 0 <= j && j < iter ==> fn(core.Node.getFrontierNodes, self.node)[j].state != "failed"
+//@   loop 2 invariant forall j :: 0 <= j && j < len(fn(core.Node.getFrontierNodes, self.node)) ==> fn(core.Node.getFrontierNodes, self.node)[j].state != "failed"
+//@   loop 3 invariant forall j :: 0 <= j && j < len(fn(core.Node.getFrontierNodes, self.node)) ==> fn(core.Node.getFrontierNodes, self.node)[j].state != "failed"
+//@   loop 4 invariant 0 <= iter && forall j :: 0 <= j && j < iter ==> (fn(core.Pipestance.allNodes, self)[j].state == "complete" || fn(core.Pipestance.allNodes, self)[j].state == "disabled")
